@@ -206,6 +206,29 @@ def nondeterminism(ck):
             ck.violation("C09.2", short(f) + ":set", where(f, s), "a set is built on the output path: its iteration order "
                          "depends on hashing (AlignedPair.__hash__ includes the per-process `source` counter)",
                          found=ast.unparse(s)[:120], required="lists / dicts (insertion ordered) on the output path")
+    # ---- C09.8: the XMAP may go to stdout (no -o): nothing else may be written there from the worker processes - their output
+    # is flushed when a worker exits, in scheduling order
+    ck.clause("C09.8", "worker processes write nothing to standard output (the XMAP may be written there; worker output arrives in "
+                       "scheduling order)")
+    n_w = 0
+    for f in fns:
+        if f.qualname not in wreach or f.is_lambda:
+            continue
+        n_w += 1
+        for c in E.iter_calls(f):
+            fn_txt = ast.unparse(c.func)
+            to_stdout = False
+            if isinstance(c.func, ast.Name) and c.func.id == "print":
+                fkw = [k for k in c.keywords if k.arg == "file"]
+                to_stdout = not fkw or ast.unparse(fkw[0].value) in ("sys.stdout", "stdout")
+            elif fn_txt in ("sys.stdout.write", "sys.stdout.writelines", "stdout.write"):
+                to_stdout = True
+            if to_stdout:
+                ck.violation("C09.8", short(f) + ":stdout", where(f, c), "a worker-side function writes to standard output: with the "
+                             "XMAP on stdout these lines land in the file in the order the workers exit",
+                             found=ast.unparse(c)[:120], required="no print / sys.stdout.write in code run by the workers "
+                             "(warnings / logging to stderr at most)")
+    ck.floor("C09.8 worker-side functions scanned", n_w, 100)
     ck.floor("C09.2 functions scanned on the result path", n, 150)
     # positive fixture
     tree = ast.parse(FIXTURE_NONDET)
